@@ -1,5 +1,6 @@
 import TruthModel.Props.C03Instr
 import TruthModel.Props.C03Files
+import TruthModel.Props.C03Anm
 /-
 C03 — a successful compile never writes a file that differs from what was asked.
 
@@ -8,4 +9,6 @@ C03 — a successful compile never writes a file that differs from what was aske
   (`read_write`, `read_write_iff`, `write_injective`, `readInstrs_writeInstrs`).
 * `Props/C03Files.lean`: container level - whole MSG, STD (both layouts), mission MSG and old ECL
   files (`*_read_write`, `*_write_err_iff`), on the models of `Model/Files.lean`, `Model/FilesEcl.lean`.
+* `Props/C03Anm.lean`: the ANM container, every version (`anm_read_write`, `anm_write_err_iff`, and the witnesses of
+  what `write_anm` narrows or drops without a diagnostic), on the model of `Model/FilesAnm.lean`.
 -/
